@@ -83,8 +83,6 @@ theorem glomit_sim (p : Prims) {recO : Rec Obs} {rec : Rec σ} (h : Sim recO rec
     · split
       · simp only [h, mapSc_bind]
       · rfl
-    · funext f; congr 1; funext r
-      split <;> simp only [mapSc_fail, mapSc_bind_left, mapSc_pure]
   | ref name sub =>
     cases sub with
     | none =>
@@ -115,12 +113,21 @@ theorem glomit_sim (p : Prims) {recO : Rec Obs} {rec : Rec σ} (h : Sim recO rec
     · split <;> simp only [mapSc_fail, mapSc_bind_left, mapSc_pure, argVal_sim h]
   | probe id => simp only [glomit, mapSc_bind_left, mapSc_pure, obsOf_mode]
   | iter s vm => simp only [glomit, mapSc_bind_left, mapSc_pure, listLoop_sim h, zipLoop_sim h]
+  | optKey k => simp only [glomit]; split <;> simp only [mapSc_pure, mapSc_fail]
+  | reqKey k => simp only [glomit, h]
+  | reenter vs s => simp only [glomit, mapSc_bind_left, mapSc_pure, h, mapSc_bind]
+  | rprobe id s =>
+    simp only [glomit, mapSc_bind_left, h, attempt_mapSc_bind]
+    congr 1; funext r
+    cases r with
+    | ok x => simp only [mapSc_bind_left, mapSc_pure]
+    | error e => simp only [mapSc_bind_left, mapSc_throw]
   | inspect s bp pm =>
     simp only [glomit, mapSc_bind_left, h, attempt_mapSc_bind]
     congr 1; funext _; congr 1; funext r
     cases r with
     | ok x => simp only [mapSc_pure]
-    | error e => simp only [mapSc_bind_left, mapSc_throw]
+    | error e => simp only; split <;> simp only [mapSc_bind_left, mapSc_throw]
 
 theorem modeFns_sim (p : Prims) {recO : Rec Obs} {rec : Rec σ} (h : Sim recO rec) (spec : Spec) (t : V) (own : σ) :
     argModeFn p recO spec t (obsOf own) = argModeFn p rec spec t own ∧
